@@ -87,6 +87,21 @@ def special_cases(ctx):
         c.stmts = [Import("ipv4"), Let("i", Call("ipv4::icmp::flow", IP(rand_ip(r)), IP(rand_ip(r))))] + \
                   [Do(Call("i." + h, STR(b"p"))) for h in hist]
         cases.append(c)
+    # payloads written as several arguments of odd and even lengths (the checksum is over the joined bytes: an odd piece
+    # in the middle shifts every later 16-bit word), through every transport builder
+    for i in range(24 if ctx.thorough else 8):
+        c = Case()
+        c.name, c.files, c.text, c.meta, c.gen = "mp%d" % i, {}, None, [], {"kind": "multi-piece-payload"}
+        pieces = lambda: [STR(bytes(r.getrandbits(8) for _ in range(n))) for n in r.choice([(3, 4), (1, 1, 1), (5, 0, 2, 7), (21, 11), (2, 3, 2), (7,), (1, 2)])]
+        ia, ib = rand_ip(r), rand_ip(r)
+        a, b = SOCK(ia, rand_port(r)), SOCK(ib, rand_port(r))
+        c.stmts = [Import("ipv4"), Let("u", Call("ipv4::udp::flow", a, b)), Let("t", Call("ipv4::tcp::flow", a, b)),
+                   Do(Call("u.client_dgram", _x=pieces())), Do(Call("u.server_dgram", _x=pieces())),
+                   Do(Call("ipv4::udp::unicast", a, b, _x=pieces())),
+                   Do(Call("t.client_message", _x=pieces())), Do(Call("t.server_segment", _x=pieces())),
+                   # (a raw datagram is checksummed for the flow's own addresses: it goes on the wire between them)
+                   Do(Call("ipv4::datagram", IP(ia), IP(ib), _x=[Call("u.client_raw_dgram", _x=pieces())]))]
+        cases.append(c)
     # datagrams handed out without their IP header (client_raw_dgram / server_raw_dgram) and put on the wire by hand
     # between the flow's own addresses: the same UDP length and checksum rules
     for i in range(40 if ctx.thorough else 12):
